@@ -159,6 +159,8 @@ class SynEngine:
             ctx.set_cur(c)
             self.ev = {'i': i, 'k': op['k']}
             self.op_find(op, c.rng('op'))
+            if self.ev.get('faulted'):
+                self.ev['out'] = f"{self.ev.get('out')}[retried-after-{self.ev['faulted']}]"
             self.res.stats.outcomes.bump(f"{op['k']}:{self.ev.get('out', 'skip')}")
             self.res.events.append(self.ev)
         return self.res
@@ -355,7 +357,10 @@ class SynEngine:
         solves = self.res.stats.peer_calls.get('sat.solve', 0) - calls_before
         pools = self.res.stats.peer_calls.get('pool.call', 0) - pool_before
         value = [v & cmask for v, cmask in zip(vals, care)]
-        # --- outcomes under faults
+        nviol0 = len(self.res.violations)
+        faulted = None
+        # --- outcomes under faults; afterwards the faults stop and the same finder is asked again: the fault must
+        #     not have poisoned it (bounded liveness: one more job gives the right answer)
         if uses_pool and fault == 'timeout' and pools:
             st.bump('timeout-fired')
             if exc is None:
@@ -365,7 +370,11 @@ class SynEngine:
                     pass  # [] in clauses: decided before the pool was used -- cannot happen here since pools > 0
                 self.violate('fault', f'timeout:{exc_name(exc)}', f'the job timed out; expected SolverTimeOutError, got {exc_name(exc)}: {exc}')
             self.ev['out'] = 'fault:timeout'
-            return
+            if len(self.res.violations) == nviol0:
+                result, exc, solves, pools = self._retry_after_fault(finder, solver)
+                faulted = 'timeout'
+            else:
+                return
         if uses_pool and fault == 'death' and pools:
             st.bump('worker-death-fired')
             if exc is None:
@@ -373,10 +382,16 @@ class SynEngine:
             elif exc_name(exc) == 'NoSolutionError':
                 self.violate('fault', 'death:NoSolutionError', 'the worker died and find_circuit reported that no solution exists')
             self.ev['out'] = 'fault:death'
-            return
+            if len(self.res.violations) == nviol0:
+                result, exc, solves, pools = self._retry_after_fault(finder, solver)
+                faulted = 'death'
+            else:
+                return
         # --- fault-free: liveness (exactly one solver job, or none when [] is a clause)
         if solves > 1 or pools > 1:
             self.violate('liveness', 'more-than-one-job', f'{solves} solver calls / {pools} pool jobs for one find_circuit')
+        if faulted:
+            self.ev['faulted'] = faulted
         if exc is not None and exc_name(exc) not in ('NoSolutionError',):
             where = innermost_cirbo_frame(exc)
             self.ev['out'] = f'unexpected:{exc_name(exc)}@{where}'
@@ -422,6 +437,18 @@ class SynEngine:
                 st.bump('find_circuit-called-twice')
             except Exception as e:  # noqa
                 self.violate('second-call', exc_name(e), f'second find_circuit on the same finder raised {exc_name(e)}: {e}')
+
+    def _retry_after_fault(self, finder, solver):
+        st = self.res.stats
+        calls_before = st.peer_calls.get('sat.solve', 0)
+        pool_before = st.peer_calls.get('pool.call', 0)
+        result = exc = None
+        try:
+            result = finder.find_circuit() if solver == 'default' else finder.find_circuit(solver)
+        except Exception as e:  # noqa
+            exc = e
+        st.probes.bump('find_circuit-again-after-fault')
+        return result, exc, st.peer_calls.get('sat.solve', 0) - calls_before, st.peer_calls.get('pool.call', 0) - pool_before
 
     @staticmethod
     def _cons_tag(cons_calls):
